@@ -1385,9 +1385,12 @@ func (m *RadioTap) DecodeFromBytes(data []byte, df gopacket.DecodeFeedback) erro
 	// now we extract a namespace for each Present bitmap, the first is always a radio tap namespace
 	radioTapNamespace := true
 	vendorNamespace := false
+	// header fields lie within the first 65535 octets: with longer data the 16 bit offsets of the
+	// namespace decoders would wrap inside their slice expressions
+	header := data[:dataLen]
 	for _, present := range m.Present {
 		if radioTapNamespace {
-			rValues, newOffset, err := RadioTapNamespace{}.decodeRadioTapNamespace(data, offset, present)
+			rValues, newOffset, err := RadioTapNamespace{}.decodeRadioTapNamespace(header, offset, present)
 			if err != nil {
 				df.SetTruncated()
 				return err
@@ -1395,7 +1398,7 @@ func (m *RadioTap) DecodeFromBytes(data []byte, df gopacket.DecodeFeedback) erro
 			m.RadioTapValues = append(m.RadioTapValues, rValues)
 			offset = newOffset
 		} else if vendorNamespace {
-			vValues, newOffset, err := VendorNamespace{}.decodeVendorNamespace(data, offset, present)
+			vValues, newOffset, err := VendorNamespace{}.decodeVendorNamespace(header, offset, present)
 			if err != nil {
 				df.SetTruncated()
 				return err
